@@ -516,6 +516,7 @@ var hostileKeys = []string{
 	"victim", "victim/child", "a", "a/b", "a/b/c", "dir", "dir/obj", "a_b", "a-b", "dir_obj",
 	".modtime-resolution", "metadata", "buckets", "_meta", "bucket/bkt-aaa", "victim-" + "0000000000000000",
 	strings.Repeat("L", 255), strings.Repeat("M", 256), "seg/" + strings.Repeat("N", 300) + "/end",
+	"fresh/" + strings.Repeat("P", 300), "fresh2/er/" + strings.Repeat("Q", 256), "seg3/" + strings.Repeat("R", 300) + "/x/y",
 }
 
 func (g *G) genC10(p *Plan) {
